@@ -54,6 +54,38 @@ def _target_term(target, name, value_term):
     return None
 
 
+def _none_default(cfg, name, defs):
+    """`def f(..., p=<D>)` ... `if p is None: p = <D>`: an explicit None is mapped to the parameter's declared default, i.e. it
+    means what leaving the argument out means.  For the reaching definitions {parameter, that assignment} the value is the
+    parameter (whose default the rules know from the signature): -> the definitions without the assignment, else None."""
+    if len(defs) != 2:
+        return None
+    dn = [cfg.nodes[d] for d in sorted(defs)]
+    ent = [n for n in dn if n.kind == "entry"]
+    asg = [n for n in dn if n.kind == "stmt" and isinstance(n.ast, ast.Assign)]
+    if len(ent) != 1 or len(asg) != 1:
+        return None
+    a = asg[0].ast
+    if not (len(a.targets) == 1 and isinstance(a.targets[0], ast.Name) and a.targets[0].id == name):
+        return None
+    fn = cfg.fi.node
+    args = fn.args
+    params = [x.arg for x in args.args]
+    if name not in params:
+        return None
+    defaults = [None] * (len(params) - len(args.defaults)) + list(args.defaults)
+    dflt = defaults[params.index(name)]
+    if dflt is None or dump(dflt) != dump(a.value) or (isinstance(dflt, ast.Constant) and dflt.value is None):
+        return None
+    # the assignment is the whole body of a top-level `if <name> is None:` without else
+    for st in fn.body:
+        if isinstance(st, ast.If) and not st.orelse and len(st.body) == 1 and st.body[0] is a and isinstance(st.test, ast.Compare) and \
+                len(st.test.ops) == 1 and isinstance(st.test.ops[0], ast.Is) and isinstance(st.test.left, ast.Name) and st.test.left.id == name and \
+                isinstance(st.test.comparators[0], ast.Constant) and st.test.comparators[0].value is None:
+            return frozenset([ent[0].id])
+    return None
+
+
 def _origin(cfg, rd, node, e, depth, seen):
     if depth > 40:
         return ("other", dump(e))
@@ -64,6 +96,9 @@ def _origin(cfg, rd, node, e, depth, seen):
         if not defs:
             return ("global", e.id)
         terms = []
+        nd = _none_default(cfg, e.id, defs)
+        if nd is not None:
+            defs = nd
         for d in sorted(defs):
             key = (d, e.id)
             if key in seen:
